@@ -523,10 +523,24 @@ func TestVerifC19Timeouts(t *testing.T) {
 		stall := c.PickStr("none", "before-headers", "after-headers", "mid-body")
 		etag := c.Bool()
 		strict := c.Bool()
-		c.Describe(func() any { return map[string]any{"stall": stall, "etag": etag, "strict": strict, "timeout": "200ms"} })
+		// recreated: an executor for the same controller, hook type and URL existed before, with a 10 s timeout
+		recreated := c.Bool()
+		c.Describe(func() any {
+			return map[string]any{"stall": stall, "etag": etag, "strict": strict, "timeout": "200ms", "predecessorWith10sTimeout": recreated}
+		})
 		release := make(chan struct{})
+		var reqMu sync.Mutex
+		reqN := 0
 		srv := httptest.NewServer(http.HandlerFunc(func(w http.ResponseWriter, r *http.Request) {
 			body := `{"status":{"v":7},"children":[]}`
+			reqMu.Lock()
+			reqN++
+			first := reqN == 1
+			reqMu.Unlock()
+			if recreated && first {
+				_, _ = w.Write([]byte(body)) // the predecessor's call is answered at once
+				return
+			}
 			wait := func() {
 				select {
 				case <-release:
@@ -569,7 +583,20 @@ func TestVerifC19Timeouts(t *testing.T) {
 			m := v1alpha1.ResponseUnmarshallModeStrict
 			wh.ResponseUnmarshallMode = &m
 		}
-		ex, err := NewWebhookExecutor(wh, fmt.Sprintf("c19-timeouts-%d-%d", os.Getpid(), c19TimeoutSeq), common.CompositeController, common.SyncHook)
+		ctlName := fmt.Sprintf("c19-timeouts-%d-%d", os.Getpid(), c19TimeoutSeq)
+		if recreated {
+			old := *wh
+			old.Timeout = &metav1.Duration{Duration: 10 * time.Second}
+			pre, err := NewWebhookExecutor(&old, ctlName, common.CompositeController, common.SyncHook)
+			if err != nil {
+				return fmt.Errorf("harness: %v", err)
+			}
+			var r0 c19Resp
+			if err := pre.Call(c19Parent(), &r0); err != nil {
+				return fmt.Errorf("harness: predecessor call failed: %v", err)
+			}
+		}
+		ex, err := NewWebhookExecutor(wh, ctlName, common.CompositeController, common.SyncHook)
 		if err != nil {
 			return fmt.Errorf("harness: %v", err)
 		}
